@@ -118,3 +118,28 @@ M("c04_orig_text_multiline_drops_middle_blank_lines", "C04", "ak/llparser.py",
 M("c04_inner_node_end_from_last_nonempty_child", "C04", "ak/llparser.py",
   "                self.start_pos = self.value[0].start_pos\n                self.end_pos = self.value[-1].end_pos",
   "                self.start_pos = self.value[0].start_pos\n                self.end_pos = max((x.end_pos for x in self.value if x.value is not None), key=lambda p: p.coords, default=self.value[-1].end_pos)")
+
+# ---------------------------------------------------------------- C05
+M("c05_trailing_none_always_popped", "C05", "ak/llparser.py",
+  "            and values_list[-1] is None\n            and self.allow_final_delimiter\n",
+  "            and values_list[-1] is None\n")
+M("c05_map_first_key_wins", "C05", "ak/llparser.py",
+  "        t_elem.value = dict(kv_pairs)",
+  "        t_elem.value = dict(reversed(kv_pairs))")
+M("c05_map_final_delimiter_always_allowed", "C05", "ak/llparser.py",
+  "        if not self.allow_final_delimiter:\n            map_kv_tail_prods.pop(1)",
+  "        if not self.allow_final_delimiter and self.optional:\n            map_kv_tail_prods.pop(1)")
+M("c05_list_final_delimiter_always_allowed", "C05", "ak/llparser.py",
+  "            if not self.allow_final_delimiter:\n                list_tail_prods.pop(1)",
+  "            if not self.allow_final_delimiter and not has_brackets:\n                list_tail_prods.pop(1)")
+M("c05_seq_elements_appended", "C05", "ak/llparser.py",
+  "            seq.insert(0, next_val)", "            seq.insert(len(seq) // 2 if len(seq) > 3 else 0, next_val)")
+M("c05_optional_empty_is_none", "C05", "ak/llparser.py",
+  "        if self.optional and t_elem.value is None:\n            return\n\n        values_list = []",
+  "        if self.optional and (t_elem.value is None or len(t_elem.value) == 2):\n            t_elem.value = None\n            return\n\n        values_list = []")
+M("c05_deep_tail_drops_items_after_10", "C05", "ak/llparser.py",
+  "        item_elem_pos, tail_elem_pos = self.tail_prods_signatures[signature]\n\n        if item_elem_pos is not None:\n            item_t_elem = t_elem.value[item_elem_pos]\n            cleanuper._cleanup(item_t_elem, for_container=True)\n            values_list.append(item_t_elem)",
+  "        item_elem_pos, tail_elem_pos = self.tail_prods_signatures[signature]\n\n        if item_elem_pos is not None:\n            item_t_elem = t_elem.value[item_elem_pos]\n            cleanuper._cleanup(item_t_elem, for_container=True)\n            if len(values_list) < 10:\n                values_list.append(item_t_elem)")
+M("c05_map_key_order_sorted", "C05", "ak/llparser.py",
+  "        t_elem.value = dict(kv_pairs)",
+  "        t_elem.value = dict(sorted(dict(kv_pairs).items()))")
